@@ -1,2 +1,12 @@
 import Solvor.Flow.Theorems
 /-! Axiom audit for the property theorems of C08 (run by every check). -/
+#print axioms Solvor.Flow.Net.cut_cert
+#print axioms Solvor.Flow.Net.chk_feasible_iff
+#print axioms Solvor.Flow.Net.chk_value_iff
+#print axioms Solvor.Flow.Net.chkMaxFlow_sound
+#print axioms Solvor.Flow.Net.augment_preserves_feasible
+#print axioms Solvor.Flow.Net.ek_terminates
+#print axioms Solvor.Flow.Net.ek_certifies
+#print axioms Solvor.Flow.Net.max_flow_correct
+#print axioms Solvor.Flow.max_flow_correct_arcs
+#print axioms Solvor.Flow.unrepaired_not_maximum
